@@ -91,7 +91,9 @@ def _reader(ctx, pkg):
     ctx.saw(RFILE, "Reaction._parse_string")
     # the reader with the procedures it may have been split into put back (the species builder stays the primitive it is)
     fn = pkg.expanded("Reaction", "_parse_string", keep=("_create_species",))
-    fl = Flow(fn, RFILE)
+    # (record types of the module -- `Rec(a, b).f`, `Rec.from_line(s)` -- are read through to the values they hold)
+    rm = ratemodel(pkg.tree)
+    fl = Flow(fn, RFILE, consts=rm.module_consts(RFILE), func_resolver=rm.func_resolver(RFILE, {"_fill_list", "_create_species"}))
     stores = {}
     for f in fl.facts:
         if f.kind == "attrstore" and f.extra.get("obj") == SELF:
@@ -349,8 +351,10 @@ def _r3(ctx, rm, pkg):
 
 
 def _r4(ctx, pkg):
-    fn = pkg.method("Network", "write")
+    pkg.method("Network", "write")
     ctx.saw(NET, "Network.write")
+    # (the writer with the helpers it may have been split into put back: a generator of the pieces merged into the loop that writes them)
+    fn = pkg.expanded("Network", "write")
     fl = Flow(fn, NET)
     writes = [f for f in fl.facts if f.kind == "call" and f.target == "write"]
     rec = [f for f in writes if f.loops and any(isinstance(x, tuple) and len(x) == 4 and x[0] == "fmt" and x[1][0] == "elem" for x in walk(simp(f.value)))]
